@@ -9,7 +9,8 @@ import re
 from . import common
 from . import pure
 
-PROOFS = ["proofs/AtomicsProofs.v", "proofs/MutexWordProofs.v", "proofs/MutexExclProofs.v", "models/Atomics.v", "models/MutexWord.v"]
+PROOFS = ["proofs/AtomicsProofs.v", "proofs/MutexWordProofs.v", "proofs/MutexExclProofs.v", "proofs/MutexAcctProofs.v",
+          "models/Atomics.v", "models/MutexWord.v"]
 
 M64 = 1 << 64
 MIN64 = -(1 << 63)
